@@ -440,10 +440,32 @@ Proof.
     cbn [map fst]. f_equal. apply IH. exact HR1.
 Qed.
 
-Theorem heap_simulator_refines_case : forall c,
-  map fst (h_run_ops (c_cfg c) (c_fuel c) (h_init (c_cfg c)) (c_ops c)) = run_case c.
+(* the same before setup(model): run calls raise without touching anything, everything else as above *)
+Theorem heap_simulator_refines_unset : forall cfg fuel ops hs st, hrel hs st ->
+  map fst (h_run_ops_unset cfg fuel hs ops) = run_ops_unset cfg fuel st ops.
 Proof.
-  intros c. unfold run_case. apply heap_simulator_refines. apply hrel_init.
+  intros cfg fuel ops. induction ops as [|o r IH]; intros hs st HR; cbn [h_run_ops_unset run_ops_unset map].
+  - reflexivity.
+  - unfold h_step_op_unset, step_op_unset. destruct (is_run o).
+    + cbn [map fst]. f_equal. apply IH. exact HR.
+    + destruct (h_step_op cfg fuel hs o) as [hs1 obh] eqn:E1.
+      destruct (step_op cfg fuel st o) as [[st1 ob] l] eqn:E2.
+      destruct (hrel_step_op _ _ _ _ _ _ _ _ _ _ HR E1 E2) as [HR1 ->].
+      cbn [map fst]. f_equal. apply IH. exact HR1.
+Qed.
+
+Lemma hrel_fresh_fresh : hrel fresh fresh.
+Proof.
+  apply hrel_intro; try reflexivity.
+  - apply refines_nil.
+  - unfold inv, fresh. cbn [s_events]. split; constructor.
+Qed.
+
+Theorem heap_simulator_refines_case : forall c, map fst (h_run_case c) = run_case c.
+Proof.
+  intros c. unfold run_case, h_run_case. destruct (c_setup c).
+  - apply heap_simulator_refines. apply hrel_init.
+  - apply heap_simulator_refines_unset. apply hrel_fresh_fresh.
 Qed.
 
 Print Assumptions heap_simulator_refines_case.
